@@ -12,7 +12,7 @@ sys.path.insert(0, VERIF)
 import z3
 from pyvc.world import World, Unsupported, SpecError
 from pyvc.engine import Interp
-from pyvc import dsl, verify
+from pyvc import dsl, verify, par
 
 G = {}          # world/registry shared with forked workers
 
@@ -33,8 +33,28 @@ def known_for(prop):
     return [e for e in json.load(open(path)) if e.get("property") == prop]
 
 
+def discharge_one(args):
+    I, ob, ent, timeout_ms, seed, both, q = args
+    rec = {"name": ob.name, "kind": ob.kind, "trace": ob.trace[-8:], "clause": ob.clause, "qual": q, "size": len(ob.pc)}
+    if ent is not None and ent.get("witness") and ob.ctx is not None:
+        st, env = ob.ctx
+        wit = I.spec_bool_old(st, ent["witness"], env) if st.old is not None else I.spec_bool(st, ent["witness"], env)
+        ob_out = verify.Oblig(ob.name, ob.pc + [z3.Not(wit)], ob.goal, ob.trace, ob.func, ob.kind, ob.extra)
+        d = verify.discharge(ob_out, timeout_ms, seed)
+        ob_in = verify.Oblig(ob.name, ob.pc + [wit], ob.goal, ob.trace, ob.func, ob.kind, ob.extra)
+        din = verify.discharge(ob_in, timeout_ms, seed, use_cvc5=False)
+        rec["known"] = {"text": ent["text"], "inside_witness": din["verdict"], "model": din.get("model")}
+    else:
+        d = verify.discharge(ob, timeout_ms, seed)
+        if both and d["verdict"] == "unsat" and d["backend"] == "z3":
+            s = z3.Solver(); s.add(*ob.pc); s.add(z3.Not(ob.goal))
+            rec["cvc5_second_opinion"] = verify.cvc5_check(s, timeout_ms)
+    rec.update(d)
+    return rec
+
+
 def worker(task):
-    q, prop, timeout_ms, seed, both = task
+    q, prop, timeout_ms, seed, both, inner = task
     t0 = time.time()
     w = G["world"]
     I = Interp(w, dsl.REG)
@@ -42,27 +62,18 @@ def worker(task):
     try:
         r = verify.verify_function(I, q, prop)
         out.update(status=r.status, reason=r.reason, paths=r.paths, exits=r.exits, requires_sat=r.requires_sat)
+        out["gen_time_s"] = round(time.time() - t0, 2)
         known = {e["obligation"]: e for e in G["known"] if e.get("status") == "known"}
-        for ob in r.obligs:
-            ent = known.get(ob.name)
-            d = None
-            rec = {"name": ob.name, "kind": ob.kind, "trace": ob.trace[-8:], "clause": ob.clause, "qual": q}
-            if ent is not None and ent.get("witness") and ob.ctx is not None:
-                st, env = ob.ctx
-                wit = I.spec_bool_old(st, ent["witness"], env) if st.old is not None else I.spec_bool(st, ent["witness"], env)
-                ob_out = verify.Oblig(ob.name, ob.pc + [z3.Not(wit)], ob.goal, ob.trace, ob.func, ob.kind, ob.extra)
-                d = verify.discharge(ob_out, timeout_ms, seed)
-                ob_in = verify.Oblig(ob.name, ob.pc + [wit], ob.goal, ob.trace, ob.func, ob.kind, ob.extra)
-                din = verify.discharge(ob_in, timeout_ms, seed, use_cvc5=False)
-                rec["known"] = {"text": ent["text"], "inside_witness": din["verdict"], "model": din.get("model")}
-            else:
-                d = verify.discharge(ob, timeout_ms, seed)
-                if both and d["verdict"] == "unsat" and d["backend"] == "z3":
-                    s = z3.Solver(); s.add(*ob.pc); s.add(z3.Not(ob.goal))
-                    rec["cvc5_second_opinion"] = verify.cvc5_check(s, timeout_ms)
-            rec.update(d)
-            rec["size"] = sum(len(str(x)) for x in ob.pc[-3:]) if False else len(ob.pc)
-            out["obligs"].append(rec)
+        # group obligations into slices for forked discharge
+        obs = r.obligs
+        n = max(inner, 6) if len(obs) > 24 else 1
+        slices = [obs[i::n] for i in range(n)]
+        def do_slice(sl):
+            return [discharge_one((I, ob, known.get(ob.name), timeout_ms, seed, both, q)) for ob in sl]
+        for res in par.fork_map(do_slice, slices, n):
+            if res[0] != "ok":
+                raise RuntimeError("discharge child failed: " + res[1])
+            out["obligs"] += res[1]
         out["stats"] = {k: (sorted(v) if isinstance(v, set) else v) for k, v in I.stats.items()}
     except Exception as e:      # engine crash
         out["status"] = "crash"
@@ -80,14 +91,16 @@ def run_property(prop, tier, seed, update_lock=False):
     G["known"] = known_for(prop)
     funcs = [q for q, c in dsl.REG.contracts.items() if c.mode == "verify" and prop in c.props]
     timeout_ms = 10000 if tier == "quick" else 60000
-    tasks = [(q, prop, timeout_ms, seed, tier == "thorough") for q in funcs]
-    nproc = min(int(os.environ.get("PYVC_PROCS", "12")), max(1, len(tasks)))
-    if tasks:
-        ctx = mp.get_context("fork")
-        with ctx.Pool(nproc) as pool:
-            results = pool.map(worker, tasks, chunksize=1)
-    else:
-        results = []
+    nproc = int(os.environ.get("PYVC_PROCS", "14"))
+    outer = max(1, min(len(funcs), 8))
+    inner = max(1, nproc // outer)
+    tasks = [(q, prop, timeout_ms, seed, tier == "thorough", inner) for q in funcs]
+    results = []
+    for res in par.fork_map(worker, tasks, outer):
+        if res[0] != "ok":
+            results.append({"q": "?", "status": "crash", "reason": res[1], "obligs": []})
+        else:
+            results.append(res[1])
     extra_results = []
     for fn in cfg.get("extra", []):
         mod, _, name = fn.rpartition(".")
@@ -131,7 +144,7 @@ def finish(prop, tier, seed, cfg, w, results, extra_results, t0, update_lock):
                 backends[o.get("backend", "z3")] += 1
             else:
                 ent["bad"].append(o)
-            if "known" in o:
+            if "known" in o and (ent.get("known") is None or o["known"]["inside_witness"] == "sat"):
                 ent["known"] = o["known"]
             if len(samples) < 6 and o["verdict"] == "unsat" and o["kind"] in ("post", "excpost", "raises", "inv", "site", "frame"):
                 if not any(s["obligation"] == o["name"] for s in samples):
